@@ -467,7 +467,7 @@ func init() {
 		Build: func(c *Ctx) []core.Workload {
 			r := c.Run
 			r.Rule = "SOAP attribute queries with labelled Issuer (registered / unregistered), Destination (absent / advertised attribute service / SSO location / foreign / another host's), signature (none / valid / invalid / unregistered key), subject (known / other user / unknown) and 0-6 requested attributes (matching, name-only, format-only, duplicates, near misses) against random user records; static and host-derived issuers. Monitor: any user canary in a reply implies registered Issuer, no non-verifying signature, acceptable Destination; answered queries: lookup argument, NameID, InResponseTo, Audience, Issuer, attribute set = reference filter (as sets), assertion signature verified by V1 and V2. A second workload keeps ONE provider alive while the requester is deregistered / re-registered and the queried users alternate. Distinct = label tuple."
-						r.Require("answered_queries", 100)
+			r.Require("answered_queries", 100)
 			r.Require("filter_excluded_something", 30)
 			r.Require("refused_issuer", 20)
 			r.Require("refused_destination", 20)
